@@ -137,7 +137,23 @@ TraceBigPair ==
           <<"C09.same_matrices", ~ok \/ (Len(e.cmA) = Len(e.cmB) /\ \A i \in 1..Len(e.cmA) :
                Cells(e.cmA[i]) = Cells(e.cmB[i]))>>}))
 
-Next == TraceNew \/ TraceDerive \/ TraceProbe \/ TraceSetEasy \/ TraceBigPair
+(* the subclass GroupScores: per-group matrices of the original, of swap(), and of the   *)
+(* original again (whichever is asked first must not influence the other)              *)
+TraceGroupSwap ==
+  /\ IsEvent("group_swap") /\ UNCHANGED <<store, obs, link>>
+  /\ LET e == Log[l]
+         ok == e.exc = ""
+         G == DOMAIN e.a
+     IN Report(e, Failing({
+          <<"C08.raised", ok>>,
+          <<"C08.swap_group_cm", ~ok \/
+               (/\ DOMAIN e.b = G /\ DOMAIN e.a2 = G
+                /\ \A g \in G : /\ Len(e.b[g]) = Len(e.a[g]) /\ Len(e.a2[g]) = Len(e.a[g])
+                                 /\ \A i \in DOMAIN e.a[g] :
+                                      /\ Cells(e.b[g][i]) = SwapCells(e.a[g][i])
+                                      /\ Cells(e.a2[g][i]) = Cells(e.a[g][i]))>>}))
+
+Next == TraceGroupSwap \/ TraceNew \/ TraceDerive \/ TraceProbe \/ TraceSetEasy \/ TraceBigPair
 Spec == Init /\ [][Next]_vars
 AllConsumed == TLCGet("stats").diameter - 1 = Len(Log)
 =============================================================================
